@@ -158,7 +158,9 @@ def handle (w : World) (line : String) : World × String :=
           (kv toks "qtype").bind natOf, (kv toks "rttl").bind natOf, (kv toks "ans").bind natOf,
           (kv toks "n").bind natOf, (kv toks "ns").bind natOf, (kv toks "rcode").bind natOf, kv toks "ip" with
     | some t, some k, some h, some q, some rttl, some a, some n, some ns, some rc, some ip =>
-      if cacheable true 1 rc then
+      let resp := (kv toks "resp").getD "1" = "1"
+      let nq := ((kv toks "nq").bind natOf).getD 1
+      if cacheable resp nq rc then
         let (w', _) := step w (.insert t k h q (normTtl n rttl) a n ns (ip = "1")); (w', "ok")
       else (w, "ok")
     | _, _, _, _, _, _, _, _, _, _ => (w, "bad-op")
